@@ -231,3 +231,29 @@ M("C02", "reduce-none-for-many", [(SF, "                return data[data.dtype.n
   "reduce=True returns None for more than three fields")
 M("C02", "control-process-slice-clamp", [(RU, "        if stop < start:\n            # will return an empty struct\n            stop = start\n\n        return slice(start, stop, step)", "        if stop <= start:\n            # will return an empty struct\n            stop = start\n\n        return slice(start, stop, step)")],
   "equivalent", control=True)
+
+# ---- C03
+M("C03", "write-no-seek-to-end", [(RC, "    // always write from the end\n    fseek(mFptr, 0, SEEK_END);\n", "    // always write from the end\n")],
+  "equivalent through sfile: update_row_count has already moved to the end before every appending write", control=True)
+M("C03", "no-seek-to-end-anywhere", [(RC, "    // always write from the end\n    fseek(mFptr, 0, SEEK_END);\n", "    // always write from the end\n"),
+                                     (RC, "    // seek back to the end of the file\n    fseek(mFptr, 0, SEEK_END);\n", "")],
+  "after the SIZE line is rewritten the rows are written right behind it, over the header")
+M("C03", "update-size-writes-chunk-size", [(SF, "        size_new = size_current + size_add\n", "        size_new = size_current + size_add if size_current < 50 else size_add + 50\n")],
+  "once the file holds 50 rows the stored row count stops accumulating")
+M("C03", "update-size-forgets-cached-size", [(SF, "        self._robj.robj.update_row_count(size_new)\n        self._size = size_new\n", "        self._robj.robj.update_row_count(size_new)\n")],
+  "third write through one handle adds to the stale cached size")
+M("C03", "text-compat-ignores-shape", [(SF, "                        if l1 == 3:\n                            if d1[2] != d2[2]:", "                        if l1 == 3 and False:\n                            if d1[2] != d2[2]:")],
+  "text files accept a chunk whose sub-array shape differs")
+M("C03", "binary-compat-ignores-byteorder", [(SF, "                if self._dtype != data.dtype:\n", "                if self._dtype.newbyteorder('=') != data.dtype.newbyteorder('='):\n")],
+  "binary files accept a chunk in the other byte order and append its raw bytes")
+M("C03", "append-missing-raises-again", [(SF, "            self._mode = \"w\"\n", "            mode = \"w+\"\n")], "the original defect D08")
+M("C03", "binary-incompat-accepted-again", [(SF, "            if bad:\n                raise ValueError(\n                    \"attempt to write an incompatible \"\n                    \"data type: \" + mess\n                )\n",
+                                           "            if bad and self._delim is not None:\n                raise ValueError(\n                    \"attempt to write an incompatible \"\n                    \"data type: \" + mess\n                )\n")], "the original defect D09")
+M("C03", "size-line-19-wide-on-update", [(RC, "    fprintf(mFptr, \"SIZE = %20ld\\n\", nrows);", "    fprintf(mFptr, \"SIZE = %19ld\\n\", nrows);")],
+  "the in-place rewrite of the SIZE line is one character short")
+M("C03", "append-rewrites-header-when-given", [(SF, "        if self._hdr is not None:\n            # we are appending data.\n            # Just update the nrows and move to the end\n\n            self._update_size(data.size)\n",
+                                               "        if self._hdr is not None:\n            # we are appending data.\n            # Just update the nrows and move to the end\n\n            self._update_size(data.size)\n            if header is not None:\n                for k in header:\n                    self._hdr.setdefault(k, header[k])\n")],
+  "harmless: only the in-memory header copy of the closing handle changes, nothing is written", control=True)
+M("C03", "overwrite-opens-append", [(SF, "    if append:\n        # if file doesn't yet exist, this will be changed to 'w+' internally.\n        mode = \"r+\"\n    else:\n        mode = \"w\"\n",
+                                    "    if append or (delim is not None and os.path.exists(outfile) and header is None):\n        # if file doesn't yet exist, this will be changed to 'w+' internally.\n        mode = \"r+\"\n    else:\n        mode = \"w\"\n")],
+  "a text overwrite without header appends to the existing file instead of replacing it")
